@@ -33,12 +33,34 @@ def apps_in(v: Any, acc: Optional[Set[str]] = None) -> Set[str]:
     return acc
 
 
+def dst_flag_unknown(tt: Any) -> bool:
+    """The argument of mktime is a time tuple built some other way than strptime(text, format) AND its DST flag is -1
+    ("let the library decide", what strptime gives) or not visible: another form of the same skeleton.  A nine-item
+    tuple whose last item is anything else (the tm_isdst of a localtime() reading, 0, 1) is the known defect - the
+    encoder then shifts the time by an hour on days whose DST state differs from today's."""
+    items = None
+    if isinstance(tt, tuple) and tt[:1] == ("tuple",):
+        items = tt[1]
+    elif isinstance(tt, tuple) and tt[:2] == ("app", "time.struct_time") and len(tt) == 3 and isinstance(tt[2], tuple) and tt[2][:1] == ("tuple",):
+        items = tt[2][1]
+    if items is not None and len(items) == 9:
+        last = items[8]
+        if last == T.c(-1):
+            return True
+        # the tm_isdst of a strptime() result is -1 as well (strptime never decides DST)
+        return bool(isinstance(last, tuple) and last[:1] == ("extmeth",) and len(last) == 3 and last[2] == "tm_isdst"
+                    and isinstance(last[1], tuple) and last[1][:2] in (("app", "time.strptime"), ("app", "datetime.datetime.strptime")))
+    if items is not None:
+        return False
+    return True
+
+
 def clock_encoder_form(V: Any) -> Optional[str]:
     """None if V is int(time.mktime(time.strptime(today ++ sep ++ HH ++ ':' ++ MM, DATEFMT ++ sep ++ '%H:%M'))) with
     today = time.strftime(DATEFMT) (current LOCAL date, same directives on both sides); else what is wrong."""
     shape = isinstance(V, tuple) and V[:2] == ("app", "int") and isinstance(V[2], tuple) and V[2][:2] == ("app", "time.mktime") and isinstance(V[2][2], tuple) and V[2][2][:2] == ("app", "time.strptime")
     if not shape:
-        mk = isinstance(V, tuple) and V[:2] == ("app", "int") and isinstance(V[2], tuple) and V[2][:2] == ("app", "time.mktime")
+        mk = isinstance(V, tuple) and V[:2] == ("app", "int") and isinstance(V[2], tuple) and V[2][:2] == ("app", "time.mktime") and dst_flag_unknown(V[2][2])
         # int(time.mktime(<some other way to build today's local time tuple>)) is another form of the same skeleton: not
         # compared here (exit 2), whereas anything that is not mktime at all (timegm, a datetime timestamp, ...) deviates
         return (("FOREIGN: " if mk else "") + f"the encoded integer is {T.show(V)[:200]}; expected int(time.mktime(time.strptime(<today's local date> + ' HH:MM', <same date directives> + ' %H:%M')))")
@@ -124,7 +146,7 @@ def run(prog: Program, rep: Report, tier: str) -> None:
         enc_apps = apps_in(V)
         shape = isinstance(V, tuple) and V[:2] == ("app", "int") and isinstance(V[2], tuple) and V[2][:2] == ("app", "time.mktime") and isinstance(V[2][2], tuple) and V[2][2][:2] == ("app", "time.strptime")
         if not shape:
-            if isinstance(V, tuple) and V[:2] == ("app", "int") and isinstance(V[2], tuple) and V[2][:2] == ("app", "time.mktime"):
+            if isinstance(V, tuple) and V[:2] == ("app", "int") and isinstance(V[2], tuple) and V[2][:2] == ("app", "time.mktime") and dst_flag_unknown(V[2][2]):
                 rep.undecided("R11.1", "mktime(strptime(..))", wheree, f"encoded integer is {T.show(V)[:300]}: int(time.mktime(..)) of a time tuple built another way than strptime(text, format) - a form this rule does not compare")
             else:
                 rep.bad("R11.1", "mktime(strptime(..))", wheree, f"encoded integer is {T.show(V)[:300]}; expected int(time.mktime(time.strptime(text, format)))", key="R11.1|shape")
